@@ -134,6 +134,26 @@ pub fn run(ctx: &Ctx, ev: &mut Ev) {
             }
         }
     }
+    // (a2) valid non-ASCII UTF-8 (the borrow promise for UTF-8 and for BOM-switched decodes): every sequence of <= 5
+    // characters over one character of each UTF-8 length after ASCII pads of 0..3 and 59..62 bytes (both sides of the 64-byte validator switch)
+    if ctx.want("utf8valid") {
+        let chars: [&str; 4] = ["a", "\u{E9}", "\u{20AC}", "\u{1F600}"];
+        let idx = [0usize, 1, 2, 3];
+        for seq in strings_over(&idx, if tiny { 2 } else if th { 6 } else { 5 }).iter() {
+            if !ev.mine() { continue; }
+            let h = seq.iter().fold(3usize, |a, b| a * 5 + b);
+            for pad in [0usize, 1, 2, 3, 59, 60, 61, 62] {
+                if tiny && pad != h % 4 { continue; }
+                if pad >= 59 && !th && h % 4 != pad % 4 { continue; }
+                let mut t = String::new(); for i in 0..pad { t.push((b'a' + (i % 26) as u8) as char); } for k in seq { t.push_str(chars[*k]); }
+                check_decode(&mut drv, ev, UTF_8, t.as_bytes(), (h + pad) % 16, true);
+                if h % 5 == 0 { let mut v = vec![0xEFu8, 0xBB, 0xBF]; v.extend_from_slice(t.as_bytes()); check_decode(&mut drv, ev, ALL[h % 40], &v, h % 16, true); check_decode(&mut drv, ev, UTF_8, &v, h % 16, true); }
+                // ... and the same text with its last byte removed (None / replacement instead of a borrow)
+                if h % 3 == 0 && !t.is_empty() { check_decode(&mut drv, ev, UTF_8, &t.as_bytes()[..t.len() - 1], h % 16, true); }
+                if h % 7 == 0 { let sc: Vec<u32> = t.chars().map(|c| c as u32).collect(); check_encode(&mut drv, ev, ALL[h % 40], &sc, h % 16, true); }
+            }
+        }
+    }
     // (b) hostile tails after long valid prefixes (reserve retry path: many errors / unmappables after a long valid prefix)
     if ctx.want("random") {
         let mut r = ctx.rng(11);
